@@ -67,6 +67,9 @@ def cases(tier, seed):
             for ml in ((60, 100, 16384) if not thorough else (40, 60, 100, 250, 16384)):
                 for pad in (0, 1, 37, 200):
                     yield {'cls': 'CStoreRQMessage', 'maxlen': ml, 'mode': mode, 'ts': ts, 'pad': pad}
+    # command sets as other toolkits send them: optional elements absent altogether (not present-but-empty)
+    for name in msggen.CLASS_NAMES:
+        yield {'cls': name, 'maxlen': 70, 'dslen': 9, 'mode': 'memory', 'lean': True}
     # a long fragment list: deviation-bounded compositions
     yield {'cls': 'CStoreRQMessage', 'maxlen': 12, 'dslen': 40, 'mode': 'memory'}
     yield {'cls': 'CFindRSPMessage', 'maxlen': 14, 'dslen': 9, 'mode': 'memory'}
@@ -166,6 +169,12 @@ def run_case(case):
         raw = _dicom_bytes(ts, case['pad'])
         sop = CT
     msg = msggen.make(name, sop_class=sop, sop_inst='1.2.3.4.5.6.7', data_set=raw or None)
+    if case.get('lean'):
+        keep = {'CommandGroupLength', 'CommandField', 'CommandDataSetType', 'MessageID', 'MessageIDBeingRespondedTo', 'AffectedSOPClassUID',
+                'RequestedSOPClassUID', 'Status'}
+        for el in list(msg.command_set):
+            if el.keyword not in keep:
+                del msg.command_set[el.tag]
     msg.set_length()
     frags = [p.data_value_items[0] for p in msg.encode(pc, ml)]
     n = len(frags)
@@ -346,7 +355,7 @@ def run_case(case):
     finally:
         if tmpdir:
             shutil.rmtree(tmpdir, ignore_errors=True)
-    return {'viol': viol[:30], 'case': case if viol else None, 'key': (name, n, mode, ml, case.get('ts'), case.get('pad', case.get('dslen'))),
+    return {'viol': viol[:30], 'case': case if viol else None, 'key': (name, n, mode, ml, case.get('ts'), case.get('pad', case.get('dslen')), case.get('lean')),
             'count': {'compositions': ncomp, 'reassemblies_checked': keys},
             'sample': dict(case, fragments=n, compositions=ncomp) if name in ('CStoreRQMessage',) and ml in (40, 12, 100) else None}
 
